@@ -111,18 +111,33 @@ def run(ctx):
     R4 = 'C03-R4'
     ctx.rule(R4, 'paired tombstones: bootstrap opens every Add* record without a matching Delete* and unwraps its owner table; '
                  'therefore every function that emits EpochOp::DeleteRowSet must also emit EpochOp::DeleteDV for the DVs of '
-                 'that row-set')
+                 'that row-set; the same for the DropTable arm of commit_changes, which retires the row-sets of a dropped table itself')
     emit = {}
     for bd in prog.bodies.values():
         for var in ('DeleteRowSet', 'DeleteDV', 'AddRowSet', 'AddDV', 'DropTable', 'CreateTable'):
             if any(True for _ in bd.aggregates(EPOCHOP, var)):
                 emit.setdefault(bd.root, set()).add(var)
+    # DROP TABLE retires the row-sets inside commit_changes (arm of EpochOp::DropTable), as manifest records: the same pairing there
+    CCM = SEC + 'version_manager::VersionManager::commit_changes_with_custom_manifest::{closure#0}'
+    cb = prog.body(CCM)
+    if ctx.anchor(R4, CCM, cb is not None):
+        MOP = SEC + 'manifest::ManifestOperation'
+        for i, bl in enumerate(cb.blocks):
+            t = bl['term']
+            if t['k'] == 'switch' and t.get('adt') == EPOCHOP and not bl['cleanup']:
+                arms = {t['variants'][v]: tgt for v, tgt in t['targets'] if v in t.get('variants', {})}
+                if 'DropTable' in arms:
+                    others = {tgt for vv, tgt in arms.items() if vv != 'DropTable'} | {i}
+                    region = cb.reachable_from([arms['DropTable']], avoid=others)
+                    made = {st['rv']['variant'] for bb, st in cb.aggregates(MOP) if bb in region}
+                    if 'DeleteRowSet' in made:
+                        emit.setdefault(cb.root + '·DropTable-arm', set()).update(made)
     dels = {r: v for r, v in emit.items() if 'DeleteRowSet' in v}
-    ctx.floor(R4, len(dels), 2, 'functions emitting EpochOp::DeleteRowSet')
+    ctx.floor(R4, len(dels), 2, 'places that originate DeleteRowSet records (EpochOp emitters + the DropTable arm of commit_changes)')
     for r, vs in sorted(dels.items()):
         ok = 'DeleteDV' in vs
         ctx.ob(R4, f'{r}', ok, f'{r} emits {sorted(vs)}' + ('' if ok else ' but never DeleteDV'),
-               [prog.bodies[r].loc] if r in prog.bodies else [],
+               [prog.bodies[r].loc] if r in prog.bodies else ([cb.loc] if cb is not None else []),
                what=f'{r.rsplit("::", 1)[-1]} logically deletes row-sets without tombstoning their delete vectors: after the '
                     f'table is dropped the orphan AddDV records make reopen panic (owner table missing)')
     ctx.extra['epoch_op_emitters'] = {k: sorted(v) for k, v in emit.items()}
